@@ -148,6 +148,8 @@ def run(cx: Cx):
     check_lookup(cx, get.qualname, Attr(Sym(get.params[0]), 'agents'), Sym(get.params[1]), 'AgentNotFoundError')
     from .common import check_overrides_forward
     check_overrides_forward(cx, env.qualname, ['get_agent', '__len__', '__iter__', 'get_agents'])
+    from .common import check_deprecated_aliases_forward
+    check_deprecated_aliases_forward(cx, env.qualname, only=('addAgent', 'removeAgent', 'getAgent'))
 
     # ------------------------------------------------------------ clause 4: removing a present agent has no direct raise
     for fnr in (rem, sw_rem):
